@@ -80,6 +80,7 @@ def cases(tier):
         for i in range(0, len(progs), size):
             out.append({"name": "%s/%d" % (base, i), "base": base, "progs": progs[i:i + size]})
     out += opsweep_cases(tier)
+    out += auxsweep_cases(tier, "tensor")
     return out
 
 
@@ -110,7 +111,42 @@ def opsweep_cases(tier):
     return out
 
 
-def run_opsweep(spec, tier, mg):
+def auxsweep_cases(tier, mode, prefix="auxsweep"):
+    """every C02 operation body that takes an auxiliary array (index array, where= mask, where condition, label array; defined in the
+    case's setup): AFTER the forward call the auxiliary input is changed, then backward(); the gradients must be those of the forward pass
+    as it was computed.  mode "tensor" (C05): the auxiliary input is passed as a Tensor and updated through MyGrad's own in-place
+    assignment.  mode "raw" (C08): the caller's ndarray is written to directly; the guard may refuse the write (ValueError: read-only),
+    otherwise the write must not reach the gradients."""
+    import re
+    from . import C02
+
+    specs = []
+    for c in C02.cases(tier):
+        if c.get("kind") == "crosshair" or c.get("heavy") or c["name"].endswith("/F") or not c.get("setup") or not c.get("leaves"):
+            continue
+        if any(vp.is_inplace(l) for l in c["body"].split("\n")) and mode == "tensor" and "[" not in c["body"]:
+            continue
+        for nm in re.findall(r"^(\w+) = np\.array\(", c["setup"], flags=re.M):
+            if not re.search(r"\b%s\b" % nm, c["body"]) or re.search(r"^%s = np\.array\((True|False|[-\d.]+)[,)]" % nm, c["setup"], flags=re.M):
+                continue  # (0-d auxiliary arrays: there is no other arrangement of their single element)
+            if mode == "tensor":
+                kinds = {}
+                exec(c["setup"], {"np": np}, kinds)
+                if kinds[nm].dtype.kind not in "biu":
+                    continue  # a float array in tensor form is an operand of the operation, not an auxiliary input
+                setup = c["setup"] + "\n%s_t = mg.Tensor(%s)" % (nm, nm)
+                body = re.sub(r"\b%s\b" % nm, nm + "_t", c["body"]) + "\n%s_t[...] = np.roll(%s_t.data.reshape(-1), 1).reshape(%s_t.shape)" % (nm, nm, nm)
+                specs.append(dict(c, name="%s|%s as a Tensor, then assigned to" % (c["name"], nm), setup=setup, body=body))
+            else:
+                body = c["body"] + "\ntry:\n    %s[...] = np.roll(%s.reshape(-1), 1).reshape(%s.shape)\nexcept ValueError:\n    pass" % (nm, nm, nm)
+                specs.append(dict(c, name="%s|then %s written to by the caller" % (c["name"], nm), body=body))
+    out = []
+    for i in range(0, len(specs), 12):
+        out.append({"name": "%s/%d" % (prefix, i), "opsweep": specs[i:i + 12]})
+    return out
+
+
+def run_opsweep(spec, tier, mg, PROP=PROP):
     res = common.new_result()
     for gs in spec["opsweep"]:
         heavy = gs.get("heavy")  # recurrent layer: the first few paths only (every path goes through the same backward code)
